@@ -628,3 +628,101 @@ pub fn legacy_snapshot_case(w: &mut World) -> VResult<()> {
     w.stats.probe("legacy-stored-state-case");
     Ok(())
 }
+
+
+/// C09 / C02 through the public API: member p seals to the leaf of member q with
+/// `safe_encrypt_with_context_to_recipient`; q, and only q, opens it with `safe_decrypt_with_context_for_current_member`.
+pub fn do_member_hpke(w: &mut World, p: usize, pick: u64, g: usize) -> VResult<bool> {
+    if !w.live(p, g) {
+        return Ok(false);
+    }
+    let Some(epoch) = w.epoch_of(p, g) else { return Ok(false) };
+    let peers: Vec<usize> = w.live_members(g).into_iter().filter(|q| *q != p && w.epoch_of(*q, g) == Some(epoch)).collect();
+    if peers.is_empty() {
+        return Ok(false);
+    }
+    let q = peers[pick as usize % peers.len()];
+    let Some(leaf_q) = w.groups[g].members.get(&epoch).and_then(|m| m.get(&q)).copied() else {
+        return Ok(false);
+    };
+    let prop = w.cfg.property.clone();
+    let component = 0x8000 + (pick as u32 & 0xff);
+    let ctx = format!("mlsim {pick}").into_bytes();
+    let aad = if pick & 1 == 0 { Some(&b"aad"[..]) } else { None };
+    let pt = format!("to leaf {leaf_q} in epoch {epoch}").into_bytes();
+    let sender = w.parties[p].mems[g].group.as_ref().unwrap();
+    let ct = guarded(&prop, "safe_encrypt_with_context_to_recipient", || {
+        sender.safe_encrypt_with_context_to_recipient(leaf_q, component, &ctx, aad, &pt)
+    })?;
+    w.stats.op("member_hpke");
+    let ct = match ct {
+        Ok(ct) => ct,
+        Err(e) => {
+            return Err(viol(
+                w,
+                "member-hpke",
+                format!("encrypt-to-member-failed:{}", err_class(&e)),
+                format!("P{p} epoch {epoch}: safe_encrypt_with_context_to_recipient(leaf {leaf_q}) failed: {e:?}"),
+            ))
+        }
+    };
+    w.stats.check("member-to-member-hpke-opens-at-recipient-only");
+    for r in std::iter::once(q).chain(peers.iter().copied().filter(|r| *r != q).take(2)) {
+        let grp = w.parties[r].mems[g].group.as_ref().unwrap();
+        let res = guarded(&prop, "safe_decrypt_with_context_for_current_member", || {
+            grp.safe_decrypt_with_context_for_current_member(component, &ctx, aad, ct.clone())
+        })?;
+        match (r == q, res) {
+            (true, Ok(got)) if got[..] == pt[..] => {}
+            (true, other) => {
+                return Err(viol(
+                    w,
+                    "member-hpke",
+                    "recipient-cannot-open".into(),
+                    format!("epoch {epoch}: P{q} (leaf {leaf_q}) cannot open what P{p} sealed to its leaf through the public API: {:?}", other.map(|v| v.len())),
+                ))
+            }
+            (false, Ok(_)) => {
+                return Err(viol(
+                    w,
+                    "member-hpke",
+                    "other-member-opens".into(),
+                    format!("epoch {epoch}: P{r} opened a ciphertext that P{p} sealed to leaf {leaf_q} of P{q}"),
+                ))
+            }
+            (false, Err(_)) => {}
+        }
+    }
+    // another context or component does not open it
+    let grp = w.parties[q].mems[g].group.as_ref().unwrap();
+    let res = guarded(&prop, "safe_decrypt_with_context_for_current_member", || {
+        grp.safe_decrypt_with_context_for_current_member(component + 1, &ctx, aad, ct.clone())
+    })?;
+    if res.is_ok() {
+        return Err(viol(
+            w,
+            "member-hpke",
+            "opens-under-other-component".into(),
+            format!("epoch {epoch}: P{q} opened a ciphertext under another component id than it was sealed for"),
+        ));
+    }
+    // a blank or out-of-range leaf is no recipient
+    let width = w.groups[g].members.get(&epoch).map(|m| m.values().copied().max().unwrap_or(0) + 1).unwrap_or(1);
+    let used: BTreeSet<u32> = w.groups[g].members.get(&epoch).map(|m| m.values().copied().collect()).unwrap_or_default();
+    let candidates: Vec<u32> = (0..width + 2).filter(|i| !used.contains(i)).collect();
+    let bad = candidates[pick as usize % candidates.len()];
+    let sender = w.parties[p].mems[g].group.as_ref().unwrap();
+    let res = guarded(&prop, "safe_encrypt_with_context_to_recipient", || {
+        sender.safe_encrypt_with_context_to_recipient(bad, component, &ctx, aad, &pt)
+    })?;
+    if res.is_ok() {
+        return Err(viol(
+            w,
+            "member-hpke",
+            "sealed-to-blank-leaf".into(),
+            format!("P{p} epoch {epoch}: safe_encrypt_with_context_to_recipient({bad}) succeeded although leaf {bad} is blank or outside the tree"),
+        ));
+    }
+    w.ev(format!("member-hpke P{p} -> P{q} g{g} e{epoch} leaf={leaf_q} ok"));
+    Ok(true)
+}
